@@ -222,13 +222,29 @@ static long scn_body(OggVorbis_File *vf,OggVorbis_File *other,const scn_t *S,lon
   return ret;
 }
 /* recovery probe: after faults stop, seeks to valid positions and the reads after them must equal the never-faulted reference */
-static int recovery_probe(OggVorbis_File *vf,const refdec_t *F,rng_t *r,char *why,size_t wn){
+static int recovery_probe(OggVorbis_File *vf,const refdec_t *F,rng_t *r,char *why,size_t wn,int lapfirst){
   for(int k=0;k<3;k++){
     ogg_int64_t p= F->total>0?(ogg_int64_t)rng_range(r,0,(long)F->total-1):0;
     if(k==2) p=0;
+    ogg_int64_t pos=p; long want=1500;
+    if(k==0 && lapfirst){
+      /* first call after the fault is a LAPPED seek: what it laps from is whatever the failure left behind, so only the return domain, the position and the
+         audio after the lapped region (half a short block of the target link) are judged; a refusal is allowed here, the plain seeks below must then still work */
+      int rs= lapfirst==1? ov_pcm_seek_lap(vf,p) : lapfirst==2? ov_pcm_seek_page_lap(vf,p) : ov_raw_seek_lap(vf,ov_raw_tell(vf)>0?ov_raw_tell(vf)/2:0);
+      res_count("recovery_first_call_is_lapped_seek",1);
+      if(!code_ok(rs)||rs>0){ snprintf(why,wn,"lapped seek after the fault cleared returned %d",rs); return -1; }
+      if(rs) continue;
+      pos=ov_pcm_tell(vf); if(lapfirst==1 && pos!=p){ snprintf(why,wn,"tell %lld after lapped seek to %lld",(long long)pos,(long long)p); return -1; }
+      if(pos<0||pos>F->total){ snprintf(why,wn,"tell %lld out of range after lapped seek",(long long)pos); return -1; }
+      vorbis_info *vi=ov_info(vf,-1); long skip= vi? vorbis_info_blocksize(vi,0)/2 : 4096;
+      while(skip>0 && pos<F->total){ float **pcm; int bs; long g=ov_read_float(vf,&pcm,(int)skip,&bs); if(g<=0){ snprintf(why,wn,"read after lapped recovery seek returned %ld at %lld of %lld",g,(long long)pos,(long long)F->total); return -1; }
+        if(ref_link_of(F,pos)!=bs) break; pos+=g; skip-=g; }
+      if(ov_pcm_tell(vf)!=pos){ snprintf(why,wn,"tell %lld, expected %lld after reading through the lapped region",(long long)ov_pcm_tell(vf),(long long)pos); return -1; }
+      res_count("lapped_recovery_seeks_verified",1);
+    }else{
     int rs=ov_pcm_seek(vf,p); if(rs){ snprintf(why,wn,"ov_pcm_seek(%lld) after the fault cleared returned %d",(long long)p,rs); return -1; }
     if(ov_pcm_tell(vf)!=p){ snprintf(why,wn,"tell %lld after seek to %lld",(long long)ov_pcm_tell(vf),(long long)p); return -1; }
-    ogg_int64_t pos=p; long want=1500;
+    }
     while(want>0 && pos<F->total){
       float **pcm; int bs; long g=ov_read_float(vf,&pcm,(int)want,&bs);
       if(g<=0){ snprintf(why,wn,"read after recovery seek returned %ld at %lld of %lld",g,(long long)pos,(long long)F->total); return -1; }
@@ -313,12 +329,29 @@ static void case_c12(const drvargs_t *a,long id){
       if(fired_body && truefail && bret>=0 && scn>=2 && scn!=10 && scn!=11){ char key[96]; snprintf(key,sizeof key,"%s-reports-success-although-%s-fired",scnname[scn],fault_name(fk));
         res_viol("C12",key,"%s@%ld %s fired %ld time(s) during %s, which returned %ld (clean run: %ld): %s",fault_name(fk),kk,persist?"persistent":"one-shot",fired_body,scnname[scn],bret,clean_ret,desc); }
       if(bret<0) nerr++;
+      if(bret<0 && persist && scn>=2 && fired_open==0){
+        /* the source is still failing: one more call of another kind on the handle whose decode machine the failure dumped (error or EOF, never a crash) */
+        int pick=(int)(hash64((uint64_t)id*131u+(uint64_t)kk*7u+(uint64_t)fk)%5); H o2; memset(&o2,0,sizeof o2); long r2=0; float **pcm2; int bs2;
+        ctx_mark("%s %s@%ld then call %d under the persisting fault",scnname[scn],fault_name(fk),kk,pick);
+        if(pick<=1){ memsrc_init(&o2.ms,s.p,s.n,1); if(ov_open_callbacks(&o2.ms,&o2.vf,NULL,0,memsrc_cb(&o2.ms))==0){ ov_read_float(&o2.vf,&pcm2,300,&bs2); o2.open=1; } }
+        switch(pick){
+          case 0: if(o2.open) r2=ov_crosslap(&h.vf,&o2.vf); break;     /* the faulted handle is the OLD stream */
+          case 1: if(o2.open) r2=ov_crosslap(&o2.vf,&h.vf); break;     /* ... the NEW stream */
+          case 2: r2=ov_read_float(&h.vf,&pcm2,256,&bs2); break;
+          case 3: r2=ov_pcm_seek_lap(&h.vf,S.target); break;
+          default: r2=ov_time_seek_lap(&h.vf,S.ttarget); break;
+        }
+        res_eval(1); res_count("second_calls_under_persisting_fault",1);
+        if(!code_ok(r2)) res_viol("C12","return-domain","call %d after a failed %s returned %ld under %s@%ld: %s",pick,scnname[scn],r2,fault_name(fk),kk,desc);
+        if(h.ms.n_close) res_viol("C12","closed-behind-callers-back","call %d after a failed %s ran the close callback: %s",pick,scnname[scn],desc);
+        if(o2.open) ov_clear(&o2.vf);
+      }
       /* callbacks work again: a seek to any valid position and the reads after it behave as on a never-faulted handle */
       memsrc_clear_fault(&h.ms);
       if(fired_open==0){   /* the statement promises recovery for failures AFTER a successful open */
         char why[200];
         if(ov_streams(&h.vf)==F.nlinks && ov_pcm_total(&h.vf,-1)==F.total){
-          if(recovery_probe(&h.vf,&F,&rs,why,sizeof why)){ char key[96]; snprintf(key,sizeof key,"no-recovery-after-%s-during-%s",fault_name(fk),scnname[scn]); res_viol("C12",key,"%s@%ld %s: %s: %s",fault_name(fk),kk,persist?"persistent":"one-shot",why,desc); }
+          if(recovery_probe(&h.vf,&F,&rs,why,sizeof why,(bret<0 && (hash64((uint64_t)id*977u+(uint64_t)kk)&1))? 1+(int)(hash64((uint64_t)id*31u+(uint64_t)kk)%3):0)){ char key[96]; snprintf(key,sizeof key,"no-recovery-after-%s-during-%s",fault_name(fk),scnname[scn]); res_viol("C12",key,"%s@%ld %s: %s: %s",fault_name(fk),kk,persist?"persistent":"one-shot",why,desc); }
           else nrecov++;
         } else if(fired_open==0 || !truefail){
           /* short/zero/one-byte reads during open may legitimately end the scan early (fewer links seen): safety and termination only */
